@@ -73,13 +73,28 @@ def got_style(cell, side):
 
 
 def user_style(body_kw, side_name, r, orig_idx):
+    """The style the user asked for at ABSOLUTE data row r, original column orig_idx.  A value with fewer rows than the
+    table is a row pattern that is recycled down the rows (rtflite / r2rtf broadcast rule); {"tuple": [...]} stands for the
+    Python tuple form, which rtflite reads as one value per ROW."""
     v = body_kw.get(f"border_{side_name}", USER_DEFAULT[side_name])
     if isinstance(v, str):
         return v
+    if isinstance(v, dict):
+        t = v["tuple"]
+        return t[r % len(t)]
     if v and isinstance(v[0], list):
-        row = v[r] if len(v) > 1 else v[0]
-        return row[orig_idx] if len(row) > 1 else row[0]
-    return v[orig_idx] if len(v) > 1 else v[0]    # flat per-column vector
+        row = v[r % len(v)]
+        return row[orig_idx % len(row)]
+    return v[orig_idx % len(v)]    # flat per-column vector
+
+
+def _materialise(spec):
+    """JSON-able case -> constructor arguments: {"tuple": [...]} becomes a tuple."""
+    body = spec.get("body")
+    if body and any(isinstance(v, dict) and "tuple" in v for v in body.values()):
+        spec = dict(spec)
+        spec["body"] = {k: (tuple(v["tuple"]) if isinstance(v, dict) and "tuple" in v else v) for k, v in body.items()}
+    return spec
 
 
 def _selected(option, i, n):
@@ -102,7 +117,7 @@ def eval_case(case: dict) -> dict:
     spec.pop("_layer", None)
     n_enc = spec.pop("_encodes", 1)
     try:
-        b = docspec.build(spec)
+        b = docspec.build(_materialise(spec))
         outs = [b.doc.rtf_encode() for _ in range(n_enc)]
     except Exception as e:  # every configuration of the space is valid
         return {"viol": [{"klass": None, "sig": f"encode-raised-{type(e).__name__}", "detail": f"{type(e).__name__}: {e}"}],
@@ -433,6 +448,17 @@ def user_borders(mode, a, ncols_orig, n):
             return [[(x, y, "")[c % 3] for c in range(ncols_orig)]]
         return {"border_top": vec(a["UT"], a["UT2"]), "border_bottom": vec(a["UB"], a["UB2"]),
                 "border_left": vec(a["UL"], a["UR"]), "border_right": vec(a["UR"], a["UL"])}
+    if mode in ("rows2t", "rows3t", "rows2m", "rows3m"):
+        # row patterns SHORTER than the table: k = 2 / 3 values, as a tuple (k x 1) or as a list of k rows (k x ncol)
+        k = int(mode[4])
+        top = [a["UT"], "", a["UT2"]][:k]
+        bot = ["", a["UB"], a["UB2"]][:k]
+        if mode.endswith("t"):
+            return {"border_top": {"tuple": top}, "border_bottom": {"tuple": bot}, "border_left": a["UL"], "border_right": a["UR"]}
+        def rows(vals, alt):
+            return [[(x, alt, "")[(i + c) % 3] if x else ("", alt)[c % 2] for c in range(ncols_orig)] for i, x in enumerate(vals)]
+        return {"border_top": rows(top, a["UB2"] if k == 2 else a["UB"]), "border_bottom": rows(bot, a["UT"]),
+                "border_left": a["UL"], "border_right": a["UR"]}
     if mode == "matrix":   # per-cell, non-default on interior rows only (one-page documents)
         def mat(x, y):
             return [[("" if r in (0, n - 1) else (x, y, "")[(r + c) % 3]) for c in range(ncols_orig)] for r in range(n)]
@@ -477,12 +503,15 @@ def plan(run):
         "left out: see ENUMERATE_ASCOLHEADER_OFF_WITH_TEXTLESS_HEADER); "
         "pages with exactly one data row (first / middle / last page; page_by new_page=True with pageby_row='column' and group sizes [1,3] [2,1,2] [3,1] [1,1,2]; "
         "plain tables with a one-row tail page) under per-column 1 x ncol user borders, each document encoded twice and both outputs judged; "
+        "footnote / source with EMPTY text in every spelling ('', [], [''], None) as table and as paragraph x placements x sizes; user borders as row "
+        "patterns shorter than the table (k = 2, 3; tuple and list-of-rows form) x page sizes not multiples of k x plain / page_by(new_page, column); "
         "table-rendered footnote / source with blank texts ' ' / '  ' (each alone, both, next to a paragraph one) x placements x sizes; "
         "2- and 3-section documents, distinct user styles per section, sections with / without headers (clauses 1, 2 and clause 5 inside sections and at section joints). "
         "non-trivial = >= 2 pages or a table-rendered footnote/source closes the table; distinct = distinct spec")
     run.assumptions = [
         "the RTF reader (mc/rtfreader) and the role classification by sentinel tags are correct; a side without \\clbrdrX or without a style word is 'no border'",
         "only border styles are compared; widths and colours belong to C09",
+        "a user border value with fewer rows than the table is a pattern recycled down the ABSOLUTE data rows (the library's documented broadcast rule)",
         "a blank-text footnote/source row carries no tag and is recognised as the single-cell blank row with exactly the configured text; the closing clauses "
         "are applied to whatever is the last table row of the page / document",
         "the four page/body settings range over the 14 non-empty styles with distinct RTF codes ('striped' shares the code of 'engraved' and is left out; "
@@ -648,6 +677,53 @@ def plan(run):
                             more["source_text"] = st
                         bl.append(table_spec(fn, src, pf, ps, hm, strat, sc, a, "scalar", **more))
     run.layer("blank-text-table-components", "mc.props.c07:eval_case", bl, chunk=40, total=len(bl))
+
+    # EMPTY (not blank) texts in every spelling the constructors accept - "", [], [""], None - for footnote and source, as
+    # table and as paragraph: such a component is configured and placed but never rendered, so the closing clauses must
+    # hold on the last row that IS there (normally the last data row), whatever the placement and page count
+    emp = []
+    spellings = (("", False), ([], False), ([""], False), (None, True))
+    for which in ("footnote", "source", "both"):
+        for mode in ("table", "para"):
+            for si, (txt, is_none) in enumerate(spellings):
+                for pi_, place in enumerate(PLACE):
+                    for other in ((None, "para", "table") if not quick else ((None, "para", "table")[(si + pi_) % 3],)):
+                        for hm, sc in ((("explicit", "2"), ("none", "3")) if quick else itertools.product(("explicit", "none"), ("1", "2", "3"))):
+                            for strat in (("plain",) if quick else ("plain", "page_by", "subline_by")):
+                                more = {}
+                                fn = src = None
+                                if which in ("footnote", "both"):
+                                    fn = mode
+                                    more.update({"footnote_text_none": True} if is_none else {"footnote_text": txt})
+                                if which in ("source", "both"):
+                                    src = mode
+                                    more.update({"source_text_none": True} if is_none else {"source_text": txt})
+                                if which == "footnote":
+                                    src = other
+                                elif which == "source":
+                                    fn = other
+                                elif other is not None:
+                                    continue
+                                emp.append(table_spec(fn, src, place, place if which == "both" else ("all", "last", "first")[pi_],
+                                                      hm, strat, sc, a, "scalar", **more)
+                                           if which != "source" else
+                                           table_spec(fn, src, ("all", "last", "first")[pi_], place, hm, strat, sc, a, "scalar", **more))
+    run.layer("empty-text-components-every-spelling", "mc.props.c07:eval_case", emp, chunk=40, total=len(emp))
+
+    # user borders given as ROW patterns shorter than the table (k = 2, 3 rows; tuple form = k x 1, list of rows = k x ncol),
+    # recycled down the absolute rows, on page sizes that are not multiples of k; no column is removed
+    rp = []
+    pb = dict(page_by=[[0, 0, 0, 1, 1, 2, 2, 2, 2]], new_page=True, pageby_row="column")
+    for um in ("rows2t", "rows3t", "rows2m", "rows3m"):
+        for strat, more, size in (("plain", {}, (7, 7)), ("plain", {}, (11, 6)), ("plain", {}, (10, 6)), ("page_by", pb, (9, 40))):
+            for hm in ("explicit", "none"):
+                for fn, src, pf, ps, hm2 in core_cells():
+                    if hm2 != hm:
+                        continue
+                    if quick and not (pf == ps and pf != "first" and (fn, src) in ((None, None), ("table", "para"), ("para", "table"))):
+                        continue
+                    rp.append(table_spec(fn, src, pf, ps, hm, strat, "2", a, um, size=size, **more))
+    run.layer("row-patterns-shorter-than-table", "mc.props.c07:eval_case", rp, chunk=40, total=len(rp))
 
     # multi-section documents: clauses 1 and 2, and clause 5 inside sections and where sections meet
     ms = []
